@@ -1,2 +1,121 @@
+(* C16/Props.v — property theorems only.  Each is closed by [exact] of a lemma of Lemmas.v and
+   followed by Print Assumptions (parsed by the check: must be "Closed under the global context").
+
+   Property C16: evaluating a template yields exactly the value the expression has under Python's
+   operator semantics for the supported grammar, missing variables / type-incompatible operands give
+   the template's default, and a subscribed template is notified after every change of anything it
+   read, so it never keeps a stale value.
+
+   Domain of the theorems: expressions of [expr] (constants, parameters, reads of machine variables /
+   settings / player variables / device attributes, BinOp, UnaryOp, single Compare, BoolOp, IfExp)
+   over the values None / bool / int / str.  Floats, tuples, subscripts and '%' formatting are not in
+   the Coq model (they are exercised on the implementation by the oracle-only suite; NOTES.md).
+   [operators], [comparisons], [bool_operators] are gen/Tables.v, regenerated from the dict literals
+   of mpf/core/placeholder_manager.py on every run.
+
+   The model is of the code with fixes/C16-*.patch applied.  One part of the full statement stays
+   false of the faithful model: a change that is not announced (a player variable set to None posts no
+   player_<name> event) leaves the subscriber stale - [stale_after_unannounced_change_refuted];
+   [no_stale_value_partial] is the statement guarded by exactly that class ([honest_run]). *)
 From Common Require Import Prelude.
-From C16 Require Import Model.
+From C16 Require Import Model Lemmas.
+Open Scope Z_scope.
+
+(* MPF's walk with the translated tables computes Python's value, for every supported expression,
+   every environment, with and without subscription. *)
+Theorem eval_equals_python_allops :
+  forall (sub : bool) (en : env) (e : expr) (v : value),
+    supported e = true -> py_eval en e = PVal v -> fst (tmpl_eval sub en e) = TVal v.
+Proof. exact eval_equals_python_allops_l. Qed.
+Print Assumptions eval_equals_python_allops.
+Example eval_equals_python_allops_sat :
+  supported ex_expr = true /\ py_eval ex_env ex_expr = PVal (VInt 14).
+Proof. exact (conj ex_supported ex_value). Qed.
+Print Assumptions eval_equals_python_allops_sat.
+
+(* ... and in every other case MPF's walk ends in exactly the exception class that corresponds to
+   Python's (TypeError -> TemplateEvalError, missing parameter -> ValueError, ...). *)
+Theorem walk_matches_python_in_all_cases :
+  forall sub en e, supported e = true -> fst (tmpl_eval sub en e) = expected sub (py_eval en e).
+Proof. exact tmpl_matches_python. Qed.
+Print Assumptions walk_matches_python_in_all_cases.
+
+(* typed templates (raw / bool / int): evaluate() delivers the converted Python value, the default for None *)
+Theorem evaluate_equals_python :
+  forall k d en e v, supported e = true -> py_eval en e = PVal v -> evaluate k d en e = deliver k d v.
+Proof. exact evaluate_equals_python_l. Qed.
+Print Assumptions evaluate_equals_python.
+
+Theorem subscribed_evaluation_equals_python :
+  forall k d en e v, supported e = true -> py_eval en e = PVal v ->
+    fst (evaluate_and_subscribe k d en e) = match v with VNone => convert k d | _ => convert k v end.
+Proof. exact subscribed_equals_python_l. Qed.
+Print Assumptions subscribed_evaluation_equals_python.
+
+(* type-incompatible operands, a missing parameter or an unreadable variable give the default *)
+Theorem type_error_gives_default :
+  forall k d en e, supported e = true ->
+    (py_eval en e = PTypeErr \/ py_eval en e = PNameErr \/ py_eval en e = PReadErr) ->
+    evaluate k d en e = OVal d.
+Proof. exact type_error_gives_default_l. Qed.
+Print Assumptions type_error_gives_default.
+Example type_error_gives_default_sat :
+  py_eval ex_env (EUn KUSub (ERead (LMachine [98]))) = PTypeErr.
+Proof. exact ex_type_error. Qed.
+Print Assumptions type_error_gives_default_sat.
+
+(* Full statement for evaluate_and_subscribe would include PNameErr; the code deliberately raises
+   AssertionError for a missing parameter when subscribing (evaluate_and_subscribe_template), which the
+   model reproduces: proved for TypeError and unreadable variables. *)
+Theorem type_error_gives_default_subscribed_partial :
+  forall k d en e, supported e = true ->
+    (py_eval en e = PTypeErr \/ py_eval en e = PReadErr) ->
+    fst (evaluate_and_subscribe k d en e) = convert k d.
+Proof. exact type_error_gives_default_subscribed_l. Qed.
+Print Assumptions type_error_gives_default_subscribed_partial.
+
+(* every location Python's evaluation reads has a subscription in the returned list *)
+Theorem subscriptions_cover_reads :
+  forall en e v s, supported e = true -> tmpl_eval true en e = (TVal v, s) -> incl (reads en e) s.
+Proof. exact subscriptions_cover_reads_l. Qed.
+Print Assumptions subscriptions_cover_reads.
+Example subscriptions_cover_reads_sat :
+  tmpl_eval true ex_env ex_expr = (TVal (VInt 14), [LSetting [115]; LMachine [97]]).
+Proof. exact ex_tmpl. Qed.
+Print Assumptions subscriptions_cover_reads_sat.
+
+(* also when the result is the default after a TemplateEvalError: as long as no subscribed location
+   changes, a re-evaluation gives the same outcome (or raises) *)
+Theorem outcome_determined_by_subscriptions :
+  forall e en en' r s,
+    tmpl_eval true en e = (r, s) -> tres_ok r = true -> agree_on s en en' ->
+    fst (tmpl_eval true en' e) = r \/ tres_ok (fst (tmpl_eval true en' e)) = false.
+Proof. exact outcome_determined_by_subscriptions_l. Qed.
+Print Assumptions outcome_determined_by_subscriptions.
+
+(* FULL statement: for every history of changes, the value last delivered to the consumer of the
+   re-evaluate / re-subscribe loop equals the evaluation on the current store.
+   False of the faithful model for changes that are not announced (next theorem); proved for every
+   history whose changes are announced or leave the value read at the location unchanged. *)
+Theorem no_stale_value_partial :
+  forall k d e en cs, honest_run en cs = true ->
+    let st := hfinal k d e (en, subscribe_now k d en e) cs in
+    (forall v, last (snd st) <> OVal v)
+    \/ fst (evaluate_and_subscribe k d (fst st) e) = last (snd st)
+    \/ (forall v, fst (evaluate_and_subscribe k d (fst st) e) <> OVal v).
+Proof. exact no_stale_value_l. Qed.
+Print Assumptions no_stale_value_partial.
+Example no_stale_value_partial_sat :
+  honest_run ex_env ex_changes = true /\
+  hrun KRaw (VInt 77) ex_expr (ex_env, subscribe_now KRaw (VInt 77) ex_env ex_expr) ex_changes
+  = [(true, OVal (VInt 16)); (true, OVal (VInt 77)); (true, OVal (VInt (-9))); (true, OVal (VInt 77)); (false, OVal (VInt 77))].
+Proof. exact (conj ex_honest ex_history). Qed.
+Print Assumptions no_stale_value_partial_sat.
+
+Theorem stale_after_unannounced_change_refuted :
+  exists k d e en cs,
+    let st := hfinal k d e (en, subscribe_now k d en e) cs in
+    honest_run en cs = false /\
+    last (snd st) = OVal (VInt 5) /\ fst (evaluate_and_subscribe k d (fst st) e) = OVal (VInt 77).
+Proof. exact stale_after_unannounced_change_refuted_ex. Qed.
+Print Assumptions stale_after_unannounced_change_refuted.
